@@ -2,6 +2,7 @@
 // System: the object document is a small store, the program is a client issuing reads, the reference is the generated
 // tree; a sentinel placed after the object shows whether what was left unread has been skipped correctly.
 #include "scen_util.h"
+#include "zoo_gen.h"
 
 namespace hz {
 
@@ -126,10 +127,65 @@ static bool NeedsOrderOtherThanDoc(const DynNode& obj)
 	return false;
 }
 
+// Std-adapter leg: a document that omits a seeded subset of the members of a struct holding every std adapter, loaded into a
+// populated object: every absent member must keep its value (optional and smart pointers are documented to be reset instead).
+static Outcome AbsentMembersLeg(RunCtx& ctx, int archive)
+{
+	Source& s = ctx.src;
+	ArchiveOps& ops = GetOps(archive);
+	const std::string an = ArchiveName(archive);
+	SerializationOptions o = GenLoadOptions(s, sim::L_CFG, archive);
+	ZooGenCfg zg;
+	zg.archive = archive;
+	zg.maxLen = 5;
+	Zoo docZ;
+	GenZoo(s, sim::L_DOC, docZ, zg);
+	const size_t nMembers = sizeof(kZooOrder) / sizeof(kZooOrder[0]);
+	uint64_t mask = 0;
+	for (size_t i = 0; i < nMembers; ++i) if (s.chance(sim::L_PROG, 1, 2)) mask |= (1ull << i);
+	docZ.saveMask = mask;
+	std::string bytes;
+	CallResult sv = SaveZooWith(ops, docZ, bytes, o, OutCfg{});
+	Outcome out;
+	out.cfgKey = an + "|absent";
+	if (!sv.ok) return out;
+	Zoo target;
+	GenZoo(s, sim::L_PROG, target, zg);
+	target.skipIntKeyMaps = docZ.skipIntKeyMaps;
+	const auto before = ZooFields(target, false);
+	InCfg c;
+	if (s.chance(sim::L_IO, 1, 2)) { c = DrawStreamCfg(s, sim::L_IO); c.seekable = true; }
+	ctx.note("absent-members leg: archive=" + an + " members saved mask=" + std::to_string(mask) + " via " + c.str());
+	ctx.count("leg.absent_members");
+	sim::steps_begin(3000ull * (bytes.size() + 4096));
+	sim::stream_call_budget(64 * (bytes.size() + 4096) * 8);
+	const CallResult r = LoadZooWith(ops, target, bytes, o, c);
+	sim::steps_end();
+	const std::string tags = "archive=" + an + " leg=absent entry=" + (c.stream ? "stream:file" : "mem");
+	if (!r.isStd) return Violation("WRONG_EXCEPTION", tags, "non-std exception");
+	if (!r.ok) return Violation("WRONG_EXCEPTION", tags + " what=load_failed exc=" + r.cat, "loading a document that omits members failed: " + r.cat + " (" + r.what + ")");
+	const auto after = ZooFields(target, false);
+	out.nontrivial = true;
+	for (size_t i = 0; i < nMembers; ++i)
+	{
+		if (mask & (1ull << i)) continue;
+		const std::string name = kZooOrder[i];
+		if (name == "imap" && docZ.skipIntKeyMaps) continue;
+		const std::string& b = before.at(name);
+		const std::string& a2 = after.at(name);
+		const bool resettable = name == "opt" || name == "optStr" || name == "uptr" || name == "sptr" || name == "uobj";
+		if (a2 == b) continue;
+		if (resettable && a2 == "null") continue;
+		return Violation("WRONG_VALUE", tags + " what=absent_changed member=" + name, "member '" + name + "' is absent from the document but the target changed: before=" + b.substr(0, 120) + " after=" + a2.substr(0, 120));
+	}
+	return out;
+}
+
 Outcome RunC03(RunCtx& ctx)
 {
 	Source& s = ctx.src;
 	const int archive = static_cast<int>(s.draw(sim::L_CFG, A_COUNT));
+	if (archive != A_CSV && s.chance(sim::L_CFG, 1, 8)) return AbsentMembersLeg(ctx, archive);
 	ArchiveOps& ops = GetOps(archive);
 	const std::string an = ArchiveName(archive);
 	GenCfg g;
